@@ -265,7 +265,7 @@ func (E *Engine) VerifyFunc(p *packages.Package, pc *PkgContracts, c *FuncContra
 	f := &FuncCtx{E: E, Pkg: p, Decl: decl, C: c, PC: pc, S: NewSorts(modulePath), key: p.Types.Name() + "." + c.Key,
 		callOrd: map[string]int{}, safeOrd: map[string]int{}, trackCall: map[string]bool{}, notes: map[string]bool{},
 		heap0: map[string]string{}, heapSort: map[string][2]string{}, globals: map[types.Object]Val{}, pures: map[string]bool{},
-		specDone: map[string]bool{}, specBusy: map[string]bool{}, axiomsDone: map[string]bool{}, allocs: map[string][]string{}}
+		specDone: map[string]bool{}, specBusy: map[string]bool{}, axiomsDone: map[string]bool{}, allocs: map[string][]string{}, aliases: map[types.Object]ast.Expr{}}
 	if strings.Contains(p.PkgPath, "/") {
 		// disambiguate same-named packages (core/qbft vs core/consensus/qbft)
 		rel := strings.TrimPrefix(p.PkgPath, modulePath+"/")
@@ -583,7 +583,7 @@ func (E *Engine) VerifyLemmas(p *packages.Package, pc *PkgContracts, prop string
 		f := &FuncCtx{E: E, Pkg: p, C: c, PC: pc, S: NewSorts(modulePath), key: rel + ".lemma",
 			callOrd: map[string]int{}, safeOrd: map[string]int{}, trackCall: map[string]bool{}, notes: map[string]bool{},
 			heap0: map[string]string{}, heapSort: map[string][2]string{}, globals: map[types.Object]Val{}, pures: map[string]bool{},
-			specDone: map[string]bool{}, specBusy: map[string]bool{}, axiomsDone: map[string]bool{}, allocs: map[string][]string{}}
+			specDone: map[string]bool{}, specBusy: map[string]bool{}, axiomsDone: map[string]bool{}, allocs: map[string][]string{}, aliases: map[types.Object]ast.Expr{}}
 		env := &Env{vars: map[types.Object]Val{}, names: map[string]Val{}, heap: map[string]string{}, pc: "true"}
 		f.emitAxioms(pc, env)
 		sc := &specCtx{nolocals: true, pcs: pc}
